@@ -372,8 +372,14 @@ class SSHChannel(Generic[AnyStr], SSHPacketHandler):
             if self._encoding and not exc and not self._recv_discarded and \
                     self._recv_state in ('eof_pending', 'close_pending'):
                 try:
-                    for decoder in self._decoders.values():
-                        decoder.decode(b'', True)
+                    for datatype, decoder in self._decoders.items():
+                        # With an error handler other than strict, this
+                        # returns what takes the place of an incomplete
+                        # character at the end of the stream
+                        final_data = cast(AnyStr, decoder.decode(b'', True))
+
+                        if final_data and self._session is not None:
+                            self._session.data_received(final_data, datatype)
                 except UnicodeDecodeError as unicode_exc:
                     raise ProtocolError(str(unicode_exc)) from None
 
